@@ -9,10 +9,13 @@ MANIFEST = dict(
          "forget flags, high-water mark, allowlist, approved invoices) is what the running signer has (C11_node_state_is_durable, "
          "each request modelled as its sequence of writes in code order); velocity controls from C12.  On every run, after EVERY "
          "request (accepted or refused) of three domains a second signer is restored from a copy of nothing but the store and its "
-         "fingerprint must equal the running signer's.",
+         "fingerprint must equal the running signer's; a third of the node-level histories run on the transactional store "
+         "(enter / prepare / cloud replica / commit, also with several requests in one transaction), with a signer restored "
+         "between prepare and commit, after commit, and from the cloud copy alone.",
     design="§4 C11",
     note=lib.TB + "Crash points = after every request; torn writes inside a storage backend are outside the property's model (Persist "
-         "interface level).  The prepare/commit window of the transactional store belongs to C16.",
+         "interface level).  The store-level contract of the transactional backend itself (what prepare reports is what commit writes) is C16's theorem; "
+         "here its effect on a restored signer is observed.",
     technique="Coq proof (mem = disk invariant by induction over histories) + restart-equivalence monitor and vm_compute correspondence on the Rust implementation",
 )
 
